@@ -97,6 +97,10 @@ def cases(rng, tier):
             ops += [("SN", u if j == 0 else rng.below(ntypes), rng.below(nctx)) for j in range(cap)] + [("WAITP", "fw_begin")]
             ops += [("PARK", point), ("BGQ", u), ("WAITP", point), ("MARKHITS", "fw_wal_cleaned")]
             ops += [("RELEASE", "fw_begin"), ("WAITMORE", "fw_wal_cleaned", 1)]
+            if i == 7:
+                # ... and the shard takes long to answer (longer than any plausible per-shard time-out of the read
+                # fan-out): the read must still wait for it and return its events
+                ops += [("SLEEP", 2600)]
             ops += [("RELEASE", point), ("JOIN",), ("SETTLE",), ("O",)]
             out.append(shardprop.mk_case("reader-mid-setup", cfg, ntypes, nctx, ops))
         elif i % 12 == 2:
